@@ -83,6 +83,9 @@ func typecaseMatch(sym slip.Symbol, key slip.Object) bool {
 	if strings.EqualFold("null", string(sym)) && key == nil {
 		return true
 	}
+	if key == nil { // nil is of type null, matched above, and t
+		return strings.EqualFold("t", string(sym))
+	}
 	for _, h := range key.Hierarchy() {
 		if strings.EqualFold(string(h), string(sym)) {
 			return true
